@@ -14,6 +14,8 @@ import SpVerif.Ops.Parser
 import SpVerif.Ops.Uslp
 import SpVerif.Ops.Verificator
 import SpVerif.Ops.Prefix
+import SpVerif.Ops.DirectiveFixed
+import SpVerif.Ops.FileData
 /-!
 # Line-protocol driver: one JSON object per input line (`{"op": …, …}`), one JSON result per output line.
 `{"ok": …}` / `{"err": "<category>"}` are model results; `{"bad": "<msg>"}` is a protocol error.
@@ -37,6 +39,8 @@ def allOps : List (String × Handler) := []
   ++ Ops.Uslp.ops
   ++ Ops.Verificator.ops
   ++ Ops.Prefix.ops
+  ++ Ops.DirectiveFixed.ops
+  ++ Ops.FileData.ops
 
 def table : Std.HashMap String Handler := Std.HashMap.ofList allOps
 
